@@ -72,6 +72,9 @@ func runOnce(prop, tier string, seed int64, repo, out string, findings []report.
 		rep.Count("module_packages", p.NModule)
 		rep.Count("all_packages", p.NAll)
 		if i == 0 {
+			for pk := range p.DeadNewPkgs {
+				rep.Note("treated as test support (new package, imported by no non-test file of the module): %s", pk.Path())
+			}
 			for _, rf := range p.RenamedFields {
 				rep.Note("treated as renamed (same struct, type and tag as a field missing from the reference list): %s.%s is analysed as %s", rf.Type, rf.New, rf.Old)
 			}
